@@ -61,6 +61,9 @@ pub fn strategy() -> impl Strategy<Value = Case> {
         vec!["a", "a/ab", "lib"],
         vec!["app", "app2", "app/core", "lib/x-y"],
         vec!["é", "a.b", "a-b", "a", "a/b/c"],
+        // multi-component targets that come first in their group
+        vec!["libs/core", "tools", "web"],
+        vec!["a/b/c", "b", "c/d", "d", "a/b/c/d"],
     ];
     (
         proptest::sample::select(target_layouts),
@@ -142,6 +145,16 @@ pub fn strategy() -> impl Strategy<Value = Case> {
                 };
                 if !decoys.contains(&d) {
                     decoys.push(d);
+                }
+            }
+            // plain directories named like another target, next to a multi-component target
+            for t in &config.targets {
+                let Some((parent, _)) = t.path.rsplit_once('/') else { continue };
+                for u in &config.targets {
+                    let d = (format!("{}/{}", parent, u.path), true);
+                    if !u.path.contains('/') && config.target(&d.0).is_none() && !decoys.contains(&d) {
+                        decoys.push(d);
+                    }
                 }
             }
             let map_names = ["base", "m1", "m2", "m 3"];
